@@ -16,7 +16,11 @@
      cl_request a LogoutRequest ends the session only if it names the current subject
      cl_pending a LogoutResponse is consumed only if it answers a pending request
      cl_ends    the session ends exactly when the last involved IdP has answered or
-                the deadline has passed (and at no other occasion, for no other subject). *)
+                the deadline has passed (and at no other occasion, for no other subject)
+     cl_others  one subject's logout (its start, the answers to its requests) leaves the pending
+                requests of every other subject as they were                         (never leaks across subjects).
+   Round 6: "a pending logout request" is a request the service provider has SENT and that has not been
+   answered - learnt from the client's state AND from the requests its output hands out (`news_of`). *)
 From Coq Require Import List Bool Arith ZArith Lia.
 From Verif Require Import C19.Model.
 Import ListNotations.
@@ -142,7 +146,25 @@ Definition moot_add (mt ow : rid -> option (nat * issuer)) (n : nat) (i : issuer
             | None => mt r'
             end.
 
-Definition ghost_step (w : world) (g : ghost) (vb : view) (o : op) (ou : out) (va : view) : ghost :=
+(* Which logout requests has the service provider SENT in this step, and to whom?  Those it files in its state
+   (`new_pending`), and those its output hands to the application for delivery over the front channel
+   (`OSent [.. SentPending i b r ..]`): a request that went out is a pending logout request whether or not the
+   client object - or the state store the application gave it - remembers it; the identity provider will answer
+   it all the same.  `unfiled` = handed out but not on file afterwards (never the case for the model:
+   Proofs.unfiled_model; then `news_of` is `new_pending`). *)
+Definition handed_out (ou : out) : list (rid * pview) :=
+  match ou with
+  | OSent l => flat_map (fun x => match x with
+                                  | SentPending i _ r => [(r, {| pv_entity := i; pv_list := []; pv_subj := 0%nat; pv_expire := None |})]
+                                  | SentSoap _ => []
+                                  end) l
+  | _ => []
+  end.
+Definition unfiled (ou : out) (va : view) : list (rid * pview) :=
+  filter (fun rp => negb (mem (fst rp) (pending_ids va))) (handed_out ou).
+Definition news_of (vb va : view) (ou : out) : list (rid * pview) := new_pending vb va ++ unfiled ou va.
+
+Definition ghost_step_n (news : list (rid * pview)) (w : world) (g : ghost) (vb : view) (o : op) (ou : out) (va : view) : ghost :=
   match o with
   | StartLogout s dl ans =>
       if present vb s then
@@ -152,7 +174,7 @@ Definition ghost_step (w : world) (g : ghost) (vb : view) (o : op) (ou : out) (v
         let T := {| t_subj := s; t_wait := wait; t_deadline := dl; t_soap := existsb (asked_by_soap w) involved |} in
         base_ghost g o ou va
           (txn_set (g_txn g) n (if deadline_passed (g_now g) dl || is_nil wait then None else Some T))
-          (owner_add (g_owner g) n (new_pending vb va)) (g_moot g) (S n)
+          (owner_add (g_owner g) n news) (g_moot g) (S n)
       else base_ghost g o ou va (g_txn g) (g_owner g) (g_moot g) (g_ntxn g)
   | LogoutResponse r i success ans =>
       match answering g r i success with
@@ -161,12 +183,19 @@ Definition ghost_step (w : world) (g : ghost) (vb : view) (o : op) (ou : out) (v
           let T' := {| t_subj := t_subj T; t_wait := wait'; t_deadline := t_deadline T; t_soap := t_soap T |} in
           base_ghost g o ou va
             (txn_set (g_txn g) n (if deadline_passed (g_now g) (t_deadline T) || is_nil wait' then None else Some T'))
-            (owner_add (owner_drop (g_owner g) n i) n (new_pending vb va)) (moot_add (g_moot g) (g_owner g) n i)
+            (owner_add (owner_drop (g_owner g) n i) n news) (moot_add (g_moot g) (g_owner g) n i)
             (g_ntxn g)
       | None => base_ghost g o ou va (g_txn g) (g_owner g) (g_moot g) (g_ntxn g)
       end
   | _ => base_ghost g o ou va (g_txn g) (g_owner g) (g_moot g) (g_ntxn g)
   end.
+
+(* the monitor's step; `ghost_step0` (owners learnt from the client's own state only) is what it was before
+   strengthening round 6 and coincides with it on every step of the model (Proofs.ghost_step_model) *)
+Definition ghost_step (w : world) (g : ghost) (vb : view) (o : op) (ou : out) (va : view) : ghost :=
+  ghost_step_n (news_of vb va ou) w g vb o ou va.
+Definition ghost_step0 (w : world) (g : ghost) (vb : view) (o : op) (ou : out) (va : view) : ghost :=
+  ghost_step_n (new_pending vb va) w g vb o ou va.
 
 (* ---------------------------------------------------------------- clauses (Prop) *)
 (* t may be returned for subject s by one of the issuers in cands *)
@@ -270,9 +299,27 @@ Definition cl_ends : clause := fun w g vb o ou va =>
       keeps vb va None /\ no_new vb va None /\ v_pending va = v_pending vb
   end.
 
+(* one subject's logout traffic is nobody else's business (round 6): starting a global logout for s, and an
+   answer to a pending request of s's logout, leave the pending logout requests of every OTHER subject exactly
+   as they were (same addressee, same identity providers still to answer, same deadline) - so that their
+   answers, when they come, are answers to pending requests.  (An answer that answers nothing changes nothing at
+   all: cl_pending; the other operations: cl_request / cl_ends.) *)
+Definition pend_others (vb va : view) (s : subj) : Prop :=
+  forall rp, pv_subj (snd rp) <> s -> (In rp (v_pending va) <-> In rp (v_pending vb)).
+Definition cl_others : clause := fun w g vb o ou va =>
+  match o with
+  | StartLogout s _ _ => pend_others vb va s
+  | LogoutResponse r i success _ =>
+      match answering g r i success with
+      | Some (_, T) => pend_others vb va (t_subj T)
+      | None => True
+      end
+  | _ => True
+  end.
+
 Definition step_ok : clause := fun w g vb o ou va =>
   cl_iso w g vb o ou va /\ cl_exp w g vb o ou va /\ cl_accept w g vb o ou va /\ cl_after w g vb o ou va
-  /\ cl_request w g vb o ou va /\ cl_pending w g vb o ou va /\ cl_ends w g vb o ou va.
+  /\ cl_request w g vb o ou va /\ cl_pending w g vb o ou va /\ cl_ends w g vb o ou va /\ cl_others w g vb o ou va.
 
 Definition trace := list (op * out * view).
 
@@ -480,12 +527,26 @@ Section StepB.
         keeps_b None && no_new_b None && pending_eqb (v_pending va) (v_pending vb)
     end.
 
+  Definition pend_others_b (s : subj) : bool :=
+    forallb (fun rp => (pv_subj (snd rp) =? s)%nat || pend_in_b rp (v_pending vb)) (v_pending va)
+    && forallb (fun rp => (pv_subj (snd rp) =? s)%nat || pend_in_b rp (v_pending va)) (v_pending vb).
+  Definition cl_others_b : bool :=
+    match o with
+    | StartLogout s _ _ => pend_others_b s
+    | LogoutResponse r i success _ =>
+        match answering g r i success with
+        | Some (_, T) => pend_others_b (t_subj T)
+        | None => true
+        end
+    | _ => true
+    end.
+
   (* number of the first failing clause (0 = all hold): 1 iso, 2 exp, 3 accept, 4 after,
-     5 request, 6 pending, 7 ends *)
+     5 request, 6 pending, 7 ends, 8 others *)
   Definition failing_clause : nat :=
     if negb (cl_cache_b false) then 1 else if negb (cl_cache_b true) then 2 else if negb cl_accept_b then 3
     else if negb cl_after_b then 4 else if negb cl_request_b then 5 else if negb cl_pending_b then 6
-    else if negb cl_ends_b then 7 else 0.
+    else if negb cl_ends_b then 7 else if negb cl_others_b then 8 else 0.
   Definition step_ok_b : bool := (failing_clause =? 0)%nat.
 End StepB.
 
